@@ -64,6 +64,8 @@ var freePool = []string{"0", "1", "50000000000000000", "333333333333333333", "50
 
 var vtDurPool = []int64{0, secNs, 60 * secNs, 3600 * secNs, dayNs, 30 * dayNs, yearNs, 3 * yearNs}
 
+var vtLongPool = []int64{50 * yearNs, 100 * yearNs, 150 * yearNs, 200 * yearNs, 290 * yearNs}
+
 func GenVTypes(t *rapid.T) []VType {
 	n := rapid.IntRange(1, 4).Draw(t, "nVTypes")
 	var out []VType
@@ -78,6 +80,12 @@ func GenVTypes(t *rapid.T) []VType {
 		vt := VType{Name: fmt.Sprintf("vt%d", i), Free18: free,
 			LockupNs: vtDurPool[rapid.IntRange(0, len(vtDurPool)-1).Draw(t, l+"_lock")],
 			VestNs:   vtDurPool[rapid.IntRange(0, len(vtDurPool)-1).Draw(t, l+"_vest")]}
+		if rapid.IntRange(0, 9).Draw(t, l+"_centuries") == 0 {
+			// genesis validation accepts any non-negative period a time.Duration can hold (up to ~292
+			// years each); the two periods of one type need not fit into one Duration together
+			vt.LockupNs = vtLongPool[rapid.IntRange(0, len(vtLongPool)-1).Draw(t, l+"_lockLong")]
+			vt.VestNs = vtLongPool[rapid.IntRange(0, len(vtLongPool)-1).Draw(t, l+"_vestLong")]
+		}
 		vt.LockupUnit = genUnit(t, l+"_lockUnit", vt.LockupNs)
 		vt.VestUnit = genUnit(t, l+"_vestUnit", vt.VestNs)
 		out = append(out, vt)
